@@ -29,7 +29,7 @@
 (* remember_state) followed by one probe instruction.                      *)
 (***************************************************************************)
 EXTENDS CfiExec, Json
-CONSTANTS MaxCie, MaxFde, MaxTotal, Alpha, Quick
+CONSTANTS Plan, MaxBytes, Quick
 VARIABLES c, m, md, rf, need, stopped
 vars == <<c, m, md, rf, need, stopped>>
 
@@ -82,10 +82,16 @@ Slim == { [op |-> "AdvanceLoc", d |-> Nat8(1)],
           [op |-> "Restore", r |-> 1],
           T("RememberState"), T("RestoreState"),
           T("NegateRaState") }
-Alphabet == CASE Alpha = "core" -> Core
-              [] Alpha = "wide" -> Core \cup Extra
-              [] Alpha = "slim" -> Slim
+AlphabetOf(a) == CASE a = "core" -> Core
+                   [] a = "wide" -> Core \cup Extra
+                   [] a = "slim" -> Slim
+                   [] a = "ini"  -> Slim      \* FDE over Slim after a CIE that only sets initial rules
 IsLoc(t) == t.op \in {"AdvanceLoc", "SetLoc"}
+(* what one TLC run explores: a set of (alphabet, bounds) plans, one initial state each *)
+P(a, mc, mf, mt) == [alpha |-> a, maxcie |-> mc, maxfde |-> mf, maxtotal |-> mt]
+Plans == CASE Plan = "tiny"     -> {P("core", 1, 1, 2)}
+           [] Plan = "quick"    -> {P("core", 2, 3, 3), P("slim", 2, 3, 4), P("ini", 2, 3, 5)}
+           [] Plan = "thorough" -> {P("core", 2, 3, 5), P("slim", 2, 4, 6), P("wide", 1, 3, 3)}
 (* in the quick tier the CIE draws from the instructions that shape what   *)
 (* the FDE starts from: 0 / 1 / 2 / 3 initial rules, register or expression*)
 (* CFA, remembered rows, args size, and the invalid restore                *)
@@ -98,7 +104,10 @@ CieQuick == { [op |-> "DefCfa", r |-> 1, o |-> Nat8(1)],
               T("RememberState"), T("RestoreState"),
               [op |-> "ArgsSize", s |-> Nat8(1)],
               T("NegateRaState") }
-CieAlphabet == IF Quick /\ Alpha = "core" THEN CieQuick ELSE {t \in Alphabet : ~IsLoc(t)}
+(* initial rules that differ from every rule the Slim FDE alphabet can set *)
+CieIni == { [op |-> "Undefined", r |-> 0], [op |-> "Register", r |-> 1, s |-> 0] }
+CieAlphabetOf(a) == IF Quick /\ a = "core" THEN CieQuick
+                    ELSE IF a = "ini" THEN CieIni ELSE {t \in AlphabetOf(a) : ~IsLoc(t)}
 
 (* the decoded instruction under a vendor *)
 DecodedV(t, off, vendor) == IF t.op = "NegateRaState" /\ vendor = "default"
@@ -115,8 +124,9 @@ Mark(old, new, k) == IF old = 0 /\ new.st = "err" THEN k ELSE old
 Needs(s) == <<RowsNeeded(s), RulesNeeded(s)>>
 
 (* c: templates chosen, their bytes, and the decoded lists per vendor *)
-Init == /\ c = [phase |-> "cie", cie |-> <<>>, fde |-> <<>>, cieb |-> <<>>, fdeb |-> <<>>,
-                ci |-> <<>>, fi |-> <<>>, cid |-> <<>>, fid |-> <<>>]
+Init == /\ \E pl \in Plans :
+           c = [phase |-> "cie", cie |-> <<>>, fde |-> <<>>, cieb |-> <<>>, fdeb |-> <<>>,
+                ci |-> <<>>, fi |-> <<>>, cid |-> <<>>, fid |-> <<>>, plan |-> pl]
         /\ m = [s \in Storages |-> InitBegin(Fresh(s), Cfg, <<>>)]
         /\ md = InitBegin(Fresh("heap"), Cfg, <<>>)
         /\ rf = RInit(Cfg)
@@ -131,7 +141,7 @@ Step(i, idef) ==
     /\ stopped' = [s \in Storages |-> Mark(stopped[s], m'[s], Len(need) + 1)]
 
 AppendCie(t) ==
-    /\ c.phase = "cie" /\ rf.st = "run" /\ Len(c.cie) < MaxCie
+    /\ c.phase = "cie" /\ rf.st = "run" /\ Len(c.cie) < c.plan.maxcie
     /\ LET off == CieOff0 + Len(c.cieb)
            i   == Decoded(t, off)
            id  == DecodedV(t, off, "default") IN
@@ -150,16 +160,16 @@ EndCie ==
     /\ c' = [c EXCEPT !.phase = "fde"]
 
 AppendFde(t) ==
-    /\ c.phase = "fde" /\ rf.st = "run" /\ Len(c.fde) < MaxFde /\ Len(c.cie) + Len(c.fde) < MaxTotal
+    /\ c.phase = "fde" /\ rf.st = "run" /\ Len(c.fde) < c.plan.maxfde /\ Len(c.cie) + Len(c.fde) < c.plan.maxtotal
     /\ LET off == FdeInsOffWith(Head0, Cfg, c.cieb) + Len(c.fdeb)
            i   == Decoded(t, off)
            id  == DecodedV(t, off, "default") IN
        /\ Step(i, id)
        /\ c' = [c EXCEPT !.fde = Append(@, t), !.fdeb = @ \o TEnc[t], !.fi = Append(@, i), !.fid = Append(@, id)]
 
-Next == \/ \E t \in CieAlphabet : AppendCie(t)
+Next == \/ \E t \in CieAlphabetOf(c.plan.alpha) : AppendCie(t)
         \/ EndCie
-        \/ \E t \in Alphabet : AppendFde(t)
+        \/ \E t \in AlphabetOf(c.plan.alpha) : AppendFde(t)
 
 (*--------------------------- what TLC checks -----------------------------*)
 Complete == c.phase = "fde" \/ rf.st = "err"
@@ -201,8 +211,12 @@ Inv == /\ DesignOk
              asz |-> Cfg.asz, le |-> Cfg.le, probe |-> Probe,
              rows |-> [j \in DOMAIN RFinal.out |-> RowOut(RFinal.out[j])],
              exp |-> [s \in Storages |-> Short(Final(m[s]))], expdef |-> Short(Final(md)),
-             ncie |-> Len(c.cie), nfde |-> Len(c.fde)])>>)
+             ncie |-> Len(c.cie), nfde |-> Len(c.fde), mode |-> "prog-" \o c.plan.alpha])>>)
 
+(***************************************************************************)
+(* The auxiliary modes below share one TLC run (InitX / NextX / InvX); the *)
+(* mode is a field of `c`, the machine variables idle.                     *)
+(***************************************************************************)
 (***************************************************************************)
 (* Mode "lemma": the fast LEB128 coders of CfiExec agree with Leb.tla's    *)
 (* coders as coded; encoder and decoder agree on every template, also when *)
@@ -223,11 +237,13 @@ LStrs == {<<>>, <<0>>, <<1>>, <<63>>, <<64>>, <<127>>, <<128>>, <<128, 0>>, <<25
           Rep(213, 7) \o <<85>>, Rep(213, 7) \o <<42>>}
 Idle == m = 0 /\ md = 0 /\ rf = 0 /\ need = 0 /\ stopped = 0
 Stay == UNCHANGED <<m, md, rf, need, stopped>>
-InitL == c = 0 /\ Idle
-NextL == c = 0 /\ c' = 1 /\ Stay
-InvL == c = 1 =>
+MVals == IF Quick THEN {Nat8(0), Nat8(1), Nat8(255), Int8(-1), Int8(-8), Int8(-129), Ones(8), <<0,0,0,0,0,0,0,128>>,
+                         <<255,255,255,255,0,0,0,0>>, <<7,6,5,4,3,2,1,0>>} ELSE LVals
+InitL == c = [mode |-> "lemma", stage |-> 0] /\ Idle
+NextL == c.mode = "lemma" /\ c.stage = 0 /\ c' = [mode |-> "lemma", stage |-> 1] /\ Stay
+InvL == (c.mode = "lemma" /\ c.stage = 1) =>
     /\ \A v \in LVals : ULeb(v) = EncU(v) /\ SLeb(v) = EncS(v) /\ Neg8(v) = Neg(v)
-    /\ \A v \in LVals : \A w \in LVals : Mul8(v, w) = Mul(v, w) /\ Add8(v, w) = Add(v, w)
+    /\ \A v \in LVals : \A w \in MVals : Mul8(v, w) = Mul(v, w) /\ Mul8(w, v) = Mul(w, v) /\ Add8(v, w) = Add(v, w)
                                           /\ (AddL(v, w, 0).c # 0) = AddOverflows(v, w)
     /\ \A n \in {0, 1, 255, 256, 65535, 65536, 16777215, 16777216, 2147483647} : Nat8(n) = FromNat(n, 8)
     /\ \A n \in {0, 1, -1, -2, -128, -129, -255, -256, -257, -65536, -65537, -16777217, -2147483647} : Int8(n) = FromInt(n, 8)
@@ -247,15 +263,20 @@ BCfg == [asz |-> 2, caf |-> Nat8(1), daf |-> Int8(-4), ver |-> 3, le |-> FALSE, 
          start |-> Nat8(16), range |-> Nat8(512)]
 BCie == << [op |-> "Offset", r |-> 1, f |-> Nat8(2)] >>
 
-InitB == c = <<>> /\ Idle
-NextB == Len(c) < MaxFde /\ (\E x \in ByteCls : c' = Append(c, x)) /\ Stay
+InitB == c = [mode |-> "bytes", b |-> <<>>] /\ Idle
+NextB == c.mode = "bytes" /\ Len(c.b) < MaxBytes /\ (\E x \in ByteCls : c' = [c EXCEPT !.b = Append(@, x)]) /\ Stay
+BCieIns(vendor) == DecodeAll(EncProg(BCie, BCfg.asz, BCfg.le), CieInsOff(BCfg), BCfg.asz, BCfg.le, vendor)
+BCieA == BCieIns("aarch64")
+BCieD == BCieIns("default")
+BFdeOff == FdeInsOff(BCfg, BCie)
 
 BRun(s, vendor) ==
-    LET cie == DecodeAll(EncProg(BCie, BCfg.asz, BCfg.le), CieInsOff(BCfg), BCfg.asz, BCfg.le, vendor)
-        fde == DecodeAll(c, FdeInsOff(BCfg, BCie), BCfg.asz, BCfg.le, vendor) IN
+    LET cie == IF vendor = "aarch64" THEN BCieA ELSE BCieD
+        fde == DecodeAll(c.b, BFdeOff, BCfg.asz, BCfg.le, vendor) IN
     [mach |-> RunOn(Fresh(s), BCfg, cie, fde), ref |-> RRun(BCfg, cie, fde)]
 ShortM(mm) == [n |-> Len(mm.out), fin |-> IF mm.st = "err" THEN mm.err ELSE "end"]
-InvB == LET a == BRun("vec", "aarch64")
+InvB == c.mode = "bytes" =>
+        LET a == BRun("vec", "aarch64")
             h == BRun("heap", "aarch64")
             s == BRun("s22", "aarch64")
             t == BRun("s31", "aarch64")
@@ -264,11 +285,11 @@ InvB == LET a == BRun("vec", "aarch64")
         /\ Refines(h.mach, h.ref) /\ Refines(s.mach, s.ref) /\ Refines(t.mach, t.ref)
         /\ IsPrefix(d.mach.out, a.mach.out)
         /\ PrintT(<<"CASE", ToJson(
-             [sys |-> "cfiexec", sec |-> EncSection(BCfg, BCie, <<[op |-> "Raw", x |-> c]>>),
+             [sys |-> "cfiexec", sec |-> EncSection(BCfg, BCie, <<[op |-> "Raw", x |-> c.b]>>),
               fdeoff |-> FdeOff(BCfg, BCie), asz |-> BCfg.asz, le |-> BCfg.le, probe |-> Probe,
               rows |-> [j \in DOMAIN a.mach.out |-> RowOut(a.mach.out[j])],
               exp |-> [vec |-> ShortM(a.mach), heap |-> ShortM(h.mach), s22 |-> ShortM(s.mach), s31 |-> ShortM(t.mach)],
-              expdef |-> ShortM(d.mach), ncie |-> 1, nfde |-> Len(c)])>>)
+              expdef |-> ShortM(d.mach), ncie |-> 1, nfde |-> Len(c.b), mode |-> "bytes"])>>)
 
 (***************************************************************************)
 (* Mode "grid": alignment factors x address sizes x boundary operands.     *)
@@ -287,7 +308,7 @@ GRegs == {0, 63, 64, 65535}
 GStarts(asz) == {Nat8(0), ZExt(Trunc(Int8(-3), asz), 8), ZExt(Trunc(Two63, asz), 8)}
 GRanges(asz) == {Nat8(0), Nat8(2), ZExt(Trunc(Ones(8), asz), 8)}
 
-InitG == c = [stage |-> 0] /\ Idle
+InitG == c = [mode |-> "grid", stage |-> 0] /\ Idle
 GIns ==
     {[op |-> "AdvanceLoc", d |-> x.d, e |-> x.e] : x \in GDeltas}
     \cup {[op |-> "DefCfa", r |-> 7, o |-> v] : v \in GVals}
@@ -305,30 +326,38 @@ GIns ==
     \cup {[op |-> "Restore", r |-> x, e |-> "ext"] : x \in GRegs} \cup {[op |-> "Restore", r |-> 63]}
     \cup {[op |-> "DefCfaRegister", r |-> x] : x \in GRegs}
 NextG ==
-    /\ c.stage = 0 /\ Stay
-    /\ \E asz \in {1, 2, 4, 8}, caf \in Cafs, daf \in Dafs, ver \in {1, 3, 4}, le \in BOOLEAN :
-       \E st \in GStarts(asz), rg \in GRanges(asz) :
-       LET cfg == [asz |-> asz, caf |-> caf, daf |-> daf, ver |-> ver, le |-> le, ra |-> 16, start |-> st, range |-> rg] IN
-       \/ (* every instruction once, in the FDE, followed by an advance *)
-          /\ caf \in {Nat8(1), Nat8(4)} /\ ver = 4 /\ le /\ rg = Nat8(2) /\ st = Nat8(0)
-          /\ \E t \in GIns : ~(t.op = "AdvanceLoc") /\
-                c' = [stage |-> 1, cfg |-> cfg, cie |-> <<>>, fde |-> <<t, [op |-> "AdvanceLoc", d |-> Nat8(1)]>>]
-       \/ (* advances and set_loc: every factor, size, start, range, layout *)
-          /\ daf = Nat8(1) /\ (Quick => le /\ ver = 4)
-          /\ \E t \in {x \in GIns : x.op = "AdvanceLoc"} \cup {[op |-> "SetLoc", a |-> ZExt(Trunc(v, asz), 8)] : v \in GVals} :
-                c' = [stage |-> 1, cfg |-> cfg, cie |-> <<>>, fde |-> <<t>>]
-       \/ (* the same instruction in the CIE, restored to in the FDE *)
-          /\ caf = Nat8(1) /\ ver \in {1, 3} /\ rg = Nat8(2) /\ st = Nat8(0) /\ asz \in {4, 8}
-          /\ \E t \in {x \in GIns : x.op \in {"Offset", "ValOffsetSf", "DefCfaSf"}} :
-                c' = [stage |-> 1, cfg |-> cfg, cie |-> <<t>>,
-                      fde |-> <<[op |-> "Undefined", r |-> 3], [op |-> "Restore", r |-> 3]>>]
+    /\ c.mode = "grid" /\ Stay
+    /\ \/ /\ c.stage = 0         \* first choose the factors (spreads the work over TLC's workers)
+          /\ \E asz \in {1, 2, 4, 8}, caf \in Cafs, daf \in Dafs :
+                c' = [mode |-> "grid", stage |-> 2, asz |-> asz, caf |-> caf, daf |-> daf]
+       \/ /\ c.stage = 2
+          /\ LET asz == c.asz
+                 caf == c.caf
+                 daf == c.daf IN
+             \E ver \in {1, 3, 4}, le \in BOOLEAN : \E st \in GStarts(asz), rg \in GRanges(asz) :
+             LET cfg == [asz |-> asz, caf |-> caf, daf |-> daf, ver |-> ver, le |-> le, ra |-> 16, start |-> st, range |-> rg] IN
+             \/ (* every instruction once, in the FDE, followed by an advance *)
+                /\ caf \in {Nat8(1), Nat8(4)} /\ ver = 4 /\ le /\ rg = Nat8(2) /\ st = Nat8(0)
+                /\ (Quick => caf = Nat8(4) /\ asz \in {4, 8} /\ daf \in {Int8(-8), Nat8(255), Two63})
+                /\ \E t \in GIns : ~(t.op = "AdvanceLoc") /\
+                      c' = [mode |-> "grid", stage |-> 1, cfg |-> cfg, cie |-> <<>>, fde |-> <<t, [op |-> "AdvanceLoc", d |-> Nat8(1)]>>]
+             \/ (* advances and set_loc: every factor, size, start, range, layout *)
+                /\ daf = Nat8(1) /\ (Quick => le /\ ver = 4 /\ asz \in {1, 4, 8})
+                /\ \E t \in {x \in GIns : x.op = "AdvanceLoc"} \cup {[op |-> "SetLoc", a |-> ZExt(Trunc(v, asz), 8)] : v \in GVals} :
+                      c' = [mode |-> "grid", stage |-> 1, cfg |-> cfg, cie |-> <<>>, fde |-> <<t>>]
+             \/ (* the same instruction in the CIE, restored to in the FDE *)
+                /\ caf = Nat8(1) /\ ver \in {1, 3} /\ rg = Nat8(2) /\ st = Nat8(0) /\ asz \in {4, 8}
+                /\ (Quick => asz = 4 /\ daf \in {Int8(-129), Two63} /\ (le <=> ver = 1))
+                /\ \E t \in {x \in GIns : x.op \in {"Offset", "ValOffsetSf", "DefCfaSf"}} :
+                      c' = [mode |-> "grid", stage |-> 1, cfg |-> cfg, cie |-> <<t>>,
+                            fde |-> <<[op |-> "Undefined", r |-> 3], [op |-> "Restore", r |-> 3]>>]
 
 GRun(s) == LET cie == DecodedProg(c.cie, CieInsOff(c.cfg), c.cfg.asz, c.cfg.le)
                fde == DecodedProg(c.fde, FdeInsOff(c.cfg, c.cie), c.cfg.asz, c.cfg.le) IN
            [mach |-> RunOn(Fresh(s), c.cfg, cie, fde), ref |-> RRun(c.cfg, cie, fde),
             dec |-> /\ cie = DecodeAll(EncProg(c.cie, c.cfg.asz, c.cfg.le), CieInsOff(c.cfg), c.cfg.asz, c.cfg.le, "default")
                     /\ fde = DecodeAll(EncProg(c.fde, c.cfg.asz, c.cfg.le), FdeInsOff(c.cfg, c.cie), c.cfg.asz, c.cfg.le, "default")]
-InvG == c.stage = 1 =>
+InvG == (c.mode = "grid" /\ c.stage = 1) =>
         LET a == GRun("vec")
             h == GRun("heap") IN
         /\ Obs(a.mach) = RObs(a.ref) /\ Obs(h.mach) = RObs(h.ref) /\ a.dec
@@ -338,7 +367,7 @@ InvG == c.stage = 1 =>
               asz |-> c.cfg.asz, le |-> c.cfg.le, probe |-> <<3, 7, 64, 65535>>,
               rows |-> [j \in DOMAIN a.mach.out |-> [RowOut(a.mach.out[j]) EXCEPT !.get = <<>>]],
               exp |-> [vec |-> ShortM(a.mach), heap |-> ShortM(h.mach)],
-              ncie |-> Len(c.cie), nfde |-> Len(c.fde), noget |-> TRUE])>>)
+              ncie |-> Len(c.cie), nfde |-> Len(c.fde), noget |-> TRUE, mode |-> "grid"])>>)
 
 (***************************************************************************)
 (* Mode "deep": reach a limit exactly / exceed it by one.                  *)
@@ -363,19 +392,31 @@ DProbes == { <<>>,
              << [op |-> "Restore", r |-> 101, e |-> "ext"], [op |-> "Offset", r |-> 1000, f |-> Nat8(1), e |-> "ext"] >>,
              << [op |-> "AdvanceLoc", d |-> Nat8(4)], [op |-> "Offset", r |-> 1000, f |-> Nat8(1), e |-> "ext"],
                 [op |-> "AdvanceLoc", d |-> Nat8(4)] >> }
-InitD == c = [stage |-> 0] /\ Idle
+QProbes == { <<>>,
+             << [op |-> "Offset", r |-> 1000, f |-> Nat8(1), e |-> "ext"] >>,
+             << [op |-> "Offset", r |-> 100, f |-> Nat8(9), e |-> "ext"] >>,
+             << [op |-> "Undefined", r |-> 100], [op |-> "Restore", r |-> 100, e |-> "ext"] >>,
+             << [op |-> "Restore", r |-> 101, e |-> "ext"], [op |-> "Offset", r |-> 1000, f |-> Nat8(1), e |-> "ext"] >>,
+             << T("RememberState") >> }
+InitD == c = [mode |-> "deep", stage |-> 0] /\ Idle
 NextD ==
-    /\ c.stage = 0 /\ Stay
-    /\ \/ \E ncie \in {0, 1, 2, 191, 192, 193}, nfde \in {0, 1, 190, 191, 192, 193}, p \in DProbes :
-            /\ ncie + nfde \in {0, 1, 2, 3, 191, 192, 193, 194}
-            /\ c' = [stage |-> 1, cie |-> ManyRules(100, ncie), fde |-> ManyRules(100 + ncie, nfde) \o p]
-       \/ \E ncie \in {0, 1, 2, 3}, kc \in 0..4, kf \in 0..4, p \in DProbes :
-            /\ kc + kf <= 5
-            /\ c' = [stage |-> 1, cie |-> ManyRules(100, ncie) \o Remembers(kc), fde |-> Remembers(kf) \o p]
+    /\ c.mode = "deep" /\ Stay
+    /\ \/ /\ c.stage = 0         \* first the long prefix (spreads the work over TLC's workers) ...
+          /\ \/ \E ncie \in {0, 1, 2, 191, 192, 193}, nfde \in {0, 1, 190, 191, 192, 193} :
+                  /\ ncie + nfde \in {0, 1, 2, 3, 191, 192, 193, 194}
+                  /\ Quick => <<ncie, nfde>> \in {<<0, 192>>, <<2, 190>>, <<192, 0>>, <<193, 0>>, <<2, 1>>}
+                  /\ c' = [mode |-> "deep", stage |-> 2, fam |-> 1, cie |-> ManyRules(100, ncie), fde |-> ManyRules(100 + ncie, nfde)]
+             \/ \E ncie \in {0, 1, 2, 3}, kc \in 0..4, kf \in 0..4 :
+                  /\ kc + kf <= 5 /\ (Quick => ncie \in {0, 2} /\ kc + kf \in {1, 2, 3, 4} /\ kc <= 2)
+                  /\ c' = [mode |-> "deep", stage |-> 2, fam |-> 2, cie |-> ManyRules(100, ncie) \o Remembers(kc), fde |-> Remembers(kf)]
+       \/ /\ c.stage = 2         \* ... then the probe
+          /\ \E p \in DProbes :
+                /\ Quick => IF c.fam = 1 THEN p \in QProbes ELSE Len(p) <= 2
+                /\ c' = [mode |-> "deep", stage |-> 1, cie |-> c.cie, fde |-> c.fde \o p]
 DRun(s) == LET cie == DecodedProg(c.cie, CieInsOff(DCfg), DCfg.asz, DCfg.le)
                fde == DecodedProg(c.fde, FdeInsOff(DCfg, c.cie), DCfg.asz, DCfg.le) IN
            [mach |-> RunOn(Fresh(s), DCfg, cie, fde), ref |-> RRun(DCfg, cie, fde)]
-InvD == c.stage = 1 =>
+InvD == (c.mode = "deep" /\ c.stage = 1) =>
         LET a == DRun("vec")
             h == DRun("heap")
             s == DRun("s22")
@@ -387,5 +428,12 @@ InvD == c.stage = 1 =>
               asz |-> DCfg.asz, le |-> DCfg.le, probe |-> <<100, 101, 1000>>,
               rows |-> [j \in DOMAIN a.mach.out |-> [RowOut(a.mach.out[j]) EXCEPT !.get = <<>>]],
               exp |-> [vec |-> ShortM(a.mach), heap |-> ShortM(h.mach), s22 |-> ShortM(s.mach), s31 |-> ShortM(t.mach)],
-              ncie |-> Len(c.cie), nfde |-> Len(c.fde), noget |-> TRUE, deep |-> TRUE])>>)
+              ncie |-> Len(c.cie), nfde |-> Len(c.fde), noget |-> TRUE, mode |-> "deep"])>>)
+
+(***************************************************************************)
+(* all auxiliary modes in one run                                          *)
+(***************************************************************************)
+InitX == InitL \/ InitB \/ InitG \/ InitD
+NextX == NextL \/ NextB \/ NextG \/ NextD
+InvX == InvL /\ InvB /\ InvG /\ InvD
 =============================================================================
